@@ -21,6 +21,19 @@ state (`observe` prints `panic` for panicked states, and no reachable state has 
 theorem observe_reachable (ls : List Label) (s : St) (h : run {} ls = some s) : observe s = render (obsOf s) :=
   observe_eq_render s (inv4_not_panicked (inv4_run ls inv4_init h))
 
+/-- The monitors read the same event off the label the harness printed and off the label the model
+is stepped with (they differ only in how a detached cancel notification is named). -/
+theorem evOf_relabel_fixCnotif (s : St) (l : Label) : evOf (l.relabel (fixCnotif s)) = evOf l := by
+  have hw : ∀ w : Who, (fixCnotif s w).resp? = w.resp? := by intro w; cases w <;> rfl
+  cases l with
+  | wret w o => simp [Label.relabel, evOf, hw]
+  | w1 w => cases w <;> rfl
+  | _ => rfl
+
+theorem monStepT_relabel_fixCnotif (m : Mon) (s : St) (l : Label) (o : Obs) :
+    monStepT m (l.relabel (fixCnotif s)) o = monStepT m l o := by
+  simp [monStepT, evOf_relabel_fixCnotif]
+
 /-- **MonRel holds along every run.** The monitor state after the model's own observation trace is
 related to the model state reached. -/
 theorem monRel_run (ls : List Label) (s : St) (h : run {} ls = some s) :
